@@ -170,7 +170,7 @@ theorem tailEms_plain : ∀ (fuel : Nat) (q : Bytes) (labeled : Bool), q.length 
     unfold tailEms
     by_cases hq : q = []
     · simp [hq]
-    · have hT : 0 < Gen.RELAY_TAILBUF - 1 := by simp [Gen.RELAY_TAILBUF]
+    · have hT : 0 < Gen.RELAY_TAILBUF - 1 := tailbuf_pos
       have hlen : 0 < q.length := List.length_pos_iff.mpr hq
       have hc : cstr (q.take (Gen.RELAY_TAILBUF - 1)) = q.take (Gen.RELAY_TAILBUF - 1) :=
         cstr_of_noNul _ (fun b hb => h0 b (List.mem_of_mem_take hb))
